@@ -455,8 +455,8 @@ def run(w, rep, tier):
     rep.rule("C12.API", "estimator and simulator equation builders resolve")
     rep.rule("C12.writeback", "on the accepted branch of each correction no state component is identical to its prior for all inputs (a pinned component can never converge)")
     rep.rule("C12.sensors", "simulated sensors: accelerometer = R(r)^T(0,0,-g) with |.| = g, magnetometer magnitude mag_str and heading = declination (the angle the estimator subtracts), gyro = rate + bias; truth MRP shadow-switched; estimator and simulator accelerometer models agree")
-    rep.rule("C12.schedule", "accelerometer and magnetometer corrections are reachable for every rate setting: the rate gate compares the time since the last APPLIED correction with the minimum period in the right direction (rule shared with C20)")
-    rep.rule("C12.gates", "rejection tests that would starve the filter: the magnetometer gate does not depend on the heading uncertainty W[2,.]; initialize's error code is invariant under positive scaling of the measured field")
+    rep.rule("C12.schedule", "accelerometer and magnetometer corrections are reachable for every rate setting: the rate gate compares the time since the last APPLIED correction with the minimum period in the right direction (rule shared with C20); simulator publications are not nested under another sensor's closed rate gate")
+    rep.rule("C12.gates", "rejection tests that would starve the filter: the magnetometer gate does not depend on the heading uncertainty W[2,.]; initialize's error code is invariant under positive scaling of the measured field; started at zero, the accelerometer gate accepts noise-free samples of tilted true attitudes (constant propagation at rational points)")
     rep.rule("C12.wiring", "every eqs[...](...) call in estimator.py / simulator.py names a shipped function with matching argument and result counts")
     check_writeback(w, rep)
     check_sensors(w, rep)
